@@ -264,7 +264,9 @@ func (m *Monitors) onReady(n *Node, rd *raft.Ready) {
 		want, ok := m.reads[ctx]
 		if !ok {
 			m.report("C11", "", "node %d: read state with unknown context %q", n.id, ctx)
-		} else if rs.Index < want {
+		} else if rs.Index < want && !n.cfg.Lease {
+			// (the property is about ReadOnlySafe; a lease-based read relies on bounded clock drift,
+			// which a schedule that ticks nodes independently does not provide)
 			class := ""
 			if len(d.Config.Voters[0]) == 1 && len(d.Config.Voters[1]) == 0 {
 				class = "F3"
